@@ -36,6 +36,9 @@ class RefPeer:
         self.sim.transmit(self.idx, (can_id, True, list(data), fd))
 
     def later(self, d, fn):
+        if d == 0 and self.plan.get('sync'):
+            fn()              # answers inside the delivery of the frame it answers (re-entrant for the sender)
+            return
         self.sim.schedule(self.sim.now + d, 'call', fn)
 
     # ------------------------------------------------------------------ reception
